@@ -9,7 +9,7 @@
    handlers and route hooks do as an ARBITRARY function [a_beh] of what they can
    legitimately read: the current request and the response object as the
    framework hands it over; [a_eh] are arbitrary custom error handlers.
-   Requests are arbitrary: decodable or undecodable PATH_INFO, any method, any
+   Requests are arbitrary: decodable or undecodable PATH_INFO, no PATH_INFO key at all, any method, any
    handler outcome of the C03 grammar (success, 404/405, crash, malformed or
    oversized body = a raise of a shared errors_map entry, ...). *)
 From Coq Require Import String.
@@ -37,12 +37,20 @@ Print Assumptions C09_history_equals_fresh.
    whose frames are in its __traceback__ (the last one that made it raise, F12)
    and the request whose exception is its __context__ (the last one that made it
    raise from inside an except block: "raise" outside an except block leaves
-   __context__ as it is). *)
+   __context__ as it is).  The request cell holds the last request that had a
+   PATH_INFO key: one without it fails before request.__init__ and changes
+   nothing on the thread. *)
 Theorem C09_retention_bounded :
   forall app h,
     length (alive (snd (run app (ts_fresh app) h))) <= 1 + 2 * a_shared app
-    /\ (forall r, t_req (snd (run app (ts_fresh app) (h ++ [r]))) = Some r).
-Proof. intros app h. split; [apply retention_bounded|intros r; apply alive_req_last]. Qed.
+    /\ (forall r, q_nopath r = false -> t_req (snd (run app (ts_fresh app) (h ++ [r]))) = Some r)
+    /\ (forall r, q_nopath r = true ->
+          snd (run app (ts_fresh app) (h ++ [r])) = snd (run app (ts_fresh app) h)).
+Proof.
+  intros app h. split; [apply retention_bounded|split].
+  - intros r. apply alive_req_last.
+  - intros r. apply no_path_keeps_state.
+Qed.
 Print Assumptions C09_retention_bounded.
 
 (* Record of the repaired defect F11: with the early return placed before the
@@ -75,9 +83,9 @@ Definition demo_app : app_static :=
                            (lit "Request entity too large") None (lit """None""") false)))), [(1, true)]))
         (fun _ => None) 3.
 Example C09_nonvacuous :
-  let h := [mkReq 0 (lit "/a") false false false [] [] false;
-            mkReq 1 [47; 255]%N false false false [] [] false;
-            mkReq 2 (lit "/b") false false false [] [] false] in
+  let h := [mkReq 0 (lit "/a") false false false [] [] false false;
+            mkReq 1 [47; 255]%N false false false [] [] false false;
+            mkReq 2 (lit "/b") false false false [] [] false false] in
   let '(rs, ts) := run demo_app (ts_fresh demo_app) h in
   match rs with
   | [r0; r1; r2] =>
@@ -92,3 +100,14 @@ Proof.
   - eexists. split; [reflexivity|]. intros [H|[H|[]]]; discriminate H.
   - split; reflexivity.
 Qed.
+
+(* a request without PATH_INFO after a HEAD request for /secret: the last-resort page names "/", has
+   its body (the request is a GET), and the request cell still holds request 0 *)
+Example C09_no_path_nonvacuous :
+  let h := [mkReq 0 (lit "/secret") true false false [] [] false false;
+            mkReq 1 [] false false false [] [] false true] in
+  let '(rs, ts) := run demo_app (ts_fresh demo_app) h in
+  nth 1 rs [] = [EvStart l_catchall catchall_headers true;
+                 EvBody [CBytes (lit "<h1>Critical error while processing request: /</h1>")]]
+  /\ option_map q_id (t_req ts) = Some 0.
+Proof. vm_compute. split; reflexivity. Qed.
